@@ -39,6 +39,9 @@ type Case struct {
 	ID   int    `json:"id"`
 	Mode string `json:"mode"` // hook | epoch | concurrent
 	Ops  []Op   `json:"ops"`
+	// all txids of the case fall into one of the manager's 256 maps (the first byte of the txid
+	// picks the map): several eligible txids are then met in one map while a poll counts to max
+	SameBucket bool `json:"same_bucket,omitempty"`
 }
 
 type spy struct {
@@ -72,10 +75,26 @@ func (s *spy) ProcessCoinbaseTx(ctx context.Context, b bitcoin.Hash32, tx *wire.
 	return nil
 }
 
-func mkTx(i int) *wire.MsgTx {
+// sameBucketLocks: lock times whose transactions' txids share their first byte (found by search).
+var sameBucketLocks = func() []uint32 {
+	by := map[byte][]uint32{}
+	for l := uint32(5000); ; l++ {
+		tx := wire.NewMsgTx(1)
+		tx.LockTime = l
+		b := tx.TxHash()[0]
+		by[b] = append(by[b], l)
+		if len(by[b]) == 8 {
+			return by[b]
+		}
+	}
+}()
+
+func mkTx(i int, same bool) *wire.MsgTx {
 	tx := wire.NewMsgTx(1)
-	tx.LockTime = uint32(1000 + i)
-	// spread over buckets: the first byte of the txid picks the map
+	tx.LockTime = uint32(1000 + i) // spread over the maps: the first byte of the txid picks the map
+	if same {
+		tx.LockTime = sameBucketLocks[i%len(sameBucketLocks)]
+	}
 	return tx
 }
 
@@ -107,7 +126,7 @@ func runSeq(c *Case, relevantOf map[int]bool) (string, bool) {
 	txs := map[int]*wire.MsgTx{}
 	txid := func(i int) bitcoin.Hash32 {
 		if _, ok := txs[i]; !ok {
-			txs[i] = mkTx(i)
+			txs[i] = mkTx(i, c.SameBucket)
 			sp.Lock()
 			sp.ids[*txs[i].TxHash()] = i
 			sp.Unlock()
@@ -206,7 +225,7 @@ func runConcurrent(c *Case, relevantOf map[int]bool) string {
 	txs := map[int]*wire.MsgTx{}
 	for _, op := range c.Ops {
 		if _, ok := txs[op.Tx]; !ok {
-			txs[op.Tx] = mkTx(op.Tx)
+			txs[op.Tx] = mkTx(op.Tx, c.SameBucket)
 			sp.ids[*txs[op.Tx].TxHash()] = op.Tx
 		}
 	}
@@ -270,6 +289,23 @@ func genCase(r *coqfmt.Rand, id int, mode string) Case {
 		nt = 1 + r.Intn(2)
 		nn = 2 + r.Intn(3)
 	}
+	if mode != "concurrent" && r.Chance(1, 3) {
+		c.SameBucket = true
+		nt = 3 + r.Intn(5)
+		n += 8
+		if nn < 2 {
+			nn = 2
+		}
+		// every txid announced by two or three nodes first: the later announcers then have several
+		// txids to retry at once
+		for k, announcers := 0, 2+r.Intn(2); k < announcers && k < nn; k++ {
+			for t := 0; t < nt; t++ {
+				if r.Chance(5, 6) {
+					c.Ops = append(c.Ops, Op{K: "id", Node: k, Tx: t, Max: 100})
+				}
+			}
+		}
+	}
 	for i := 0; i < n; i++ {
 		op := Op{Node: r.Intn(nn), Tx: r.Intn(nt), Expired: r.Chance(2, 5), Max: 100}
 		switch r.Pick(8, 4, 5, 2) {
@@ -279,7 +315,7 @@ func genCase(r *coqfmt.Rand, id int, mode string) Case {
 			op.K = "tx"
 		case 2:
 			op.K = "get"
-			if r.Chance(1, 4) {
+			if r.Chance(1, 4) || (c.SameBucket && r.Chance(1, 2)) {
 				op.Max = 1 + r.Intn(3)
 			}
 		default:
